@@ -26,7 +26,7 @@ MANIFEST = dict(cat=LEVEL, ref="DESIGN.md 3.9, 6 (C13)",
          "executions; each is run on TurDB five ways (inline x1, inline x2, execute_with_params, prepared x1, prepared x2 = cached "
          "plan; SELECT: inline, execute_with_params, prepared.query, prepared.execute) from two physical histories of the same rows "
          "and compared pairwise with the inlined run and with the model",
-    text="For every enumerated statement with 1-7 placeholders (INSERT also with VALUES lists of 2 and 3 tuples, the placeholders numbered across the tuples) in the forms ?, $n (ordered, out of order, repeated) and :name and "
+    text="For every enumerated statement with 1-7 placeholders (INSERT also with VALUES lists of 2 and 3 tuples, the placeholders numbered across the tuples; and ONE prepared statement bound and executed twice with two DIFFERENT parameter vectors, compared with two separately prepared statements) in the forms ?, $n (ordered, out of order, repeated) and :name and "
          "every parameter value class (incl. text containing ' '' \\ -- /* ; ? $1 :a newlines and SQL), all API paths give the "
          "result, affected count, table contents and PK/UNIQUE/secondary-index lookups of the statement with the literals inlined; "
          "quick tier samples ~320 cases (half of them from both histories), thorough runs all",
@@ -154,7 +154,10 @@ IS_SELECT = lambda case: case["kind"].startswith("sel_")
 
 
 def paths(case):
-    return ["inline", "params", "prep_query", "prep_execute"] if IS_SELECT(case) else ["inline", "inline2", "params", "prep", "prep2"]
+    other = case.get("sv2") is not None and case["sv2"] != case["sv"]
+    if IS_SELECT(case):
+        return ["inline", "params", "prep_query", "prep_execute"] + (["prep_query_seq", "prep_query_other"] if other else [])
+    return ["inline", "inline2", "params", "prep", "prep2"] + (["prep_seq", "prep_other"] if other else [])
 
 
 def probes_of(case):
@@ -166,6 +169,8 @@ def render(case, age, path):
     inline_sql = statement(case, [lit(v) for v in case["sv"]])
     ph_sql = statement(case, [placeholder(case["form"], j, n) for j in range(1, n + 1)])
     params = [par(v) for v in case["ps"]]
+    inline_sql2 = statement(case, [lit(v) for v in case["sv2"]]) if case.get("sv2") else None
+    params2 = [par(v) for v in case["ps2"]] if case.get("ps2") else None
     ops = [{"k": "exec", "sql": s} for s in SETUP[age]]
     ops.append({"k": "query", "sql": SCAN})                    # pre-state (must be the model's initial rows)
     mark = len(ops)
@@ -173,6 +178,15 @@ def render(case, age, path):
         ops.append({"k": "query" if IS_SELECT(case) else "exec", "sql": inline_sql, "stop_on_panic": False})
     elif path == "inline2":
         ops += [{"k": "exec", "sql": inline_sql, "stop_on_panic": False}] * 2
+    elif path in ("prep_seq", "prep_query_seq"):
+        # the reference for a re-bound plan: the same two bindings through two SEPARATELY prepared statements
+        mode = "query" if path == "prep_query_seq" else "execute"
+        ops += [{"k": "prepared", "sql": ph_sql, "params": params, "mode": mode, "stop_on_panic": False},
+                {"k": "prepared", "sql": ph_sql, "params": params2, "mode": mode, "stop_on_panic": False}]
+    elif path in ("prep_other", "prep_query_other"):
+        # ONE prepared statement, bound and executed twice with DIFFERENT parameter vectors
+        ops.append({"k": "prepared", "sql": ph_sql, "params": params, "params2": params2, "mode": "query" if path == "prep_query_other" else "execute",
+                    "times": 2, "stop_on_panic": False})
     elif path == "params":
         ops.append({"k": "params", "sql": ph_sql, "params": params, "stop_on_panic": False})
     elif path in ("prep", "prep2", "prep_execute"):
@@ -242,13 +256,16 @@ def observe(case, path, res, mark, after):
 
 def model_obs(case, path):
     twice = path in ("inline2", "prep2")
-    last = case["twice"] if twice else case["once"]
-    res = (model_outcome(case, "once"), model_outcome(case, "twice")) if twice else (model_outcome(case, "once"),)
+    other = path in ("prep_seq", "prep_query_seq", "prep_other", "prep_query_other")
+    last = case["other"] if other else case["twice"] if twice else case["once"]
+    res = ((model_outcome(case, "once"), model_outcome(case, "other")) if other else
+           (model_outcome(case, "once"), model_outcome(case, "twice")) if twice else (model_outcome(case, "once"),))
     return {"result": res, "state": tuple(model_rows(last["rows"])),
             "probes": tuple(sorted((p["c"], p["v"]["n"], tuple(sorted(("int", i) for i in p["ids"]))) for p in last["probes"]))}
 
 
-REF = {"params": "inline", "prep": "inline", "prep2": "inline2", "prep_query": "inline", "prep_execute": "inline"}
+REF = {"params": "inline", "prep": "inline", "prep2": "inline2", "prep_query": "inline", "prep_execute": "inline",
+       "prep_other": "prep_seq", "prep_query_other": "prep_query_seq"}
 
 
 def vclass(v):
@@ -339,19 +356,28 @@ def classify_path(case, age, path, divs, obs):
     if nan_stored and ex is not None and ex and all(ref["result"][i] == ("err",) and o["result"][i][0] == "ok" for i in ex) \
             and blames <= {"literal_path_deviates_from_model", "both_deviate_from_model"}:
         return "NaN|inlined_literal_rejected|bound_NaN_stored"
-    if (kind == "update" and path == "prep2" and case["wh"] == "id" and aspects == {"result"} and ex == [1]
+    # with a second, different binding (prep_other) a second execution that goes wrong also leaves another state behind
+    second_only = (aspects == {"result"}) if path == "prep2" else ("result" in aspects)
+    sv_second = case["sv2"] if path == "prep_other" else case["sv"]
+    if (kind == "update" and path in ("prep2", "prep_other") and case["wh"] == "id" and second_only and ex == [1]
             and blames == {"param_path_deviates_from_model"}):
         if o["result"][1] == ("err",) and form != "rev" and ref["result"][1][0] == "ok":
             return "UPDATE|prepared_second_execution|pk_fast_path_cannot_decode_stored_row"
         if form == "rev" and o["result"][1] in (("err",), ("ok", 0)):
             # the fast path takes the LAST bound parameter as the key and the first ones as the SET values, whatever $n says
             return "UPDATE|prepared_second_execution|pk_fast_path_ignores_placeholder_positions"
-    if (kind == "insert" and path == "prep2" and len(case["ph"]) == len(COLS) and case["sv"][0]["t"] == "null" and ex == [1]
+    if (kind == "insert" and path in ("prep2", "prep_other") and len(case["ph"]) == len(COLS) and sv_second[0]["t"] == "null" and ex == [1]
             and o["result"][1] == ("ok", 1) and ref["result"][1] == ("err",) and blames == {"param_path_deviates_from_model"}):
         return "INSERT|prepared_second_execution|cached_plan_accepts_NULL_primary_key"
-    if (kind == "insert" and path == "prep2" and len(case["ph"]) == len(COLS) and case["ph"] != COLS and ex == [1]
+    if (kind == "insert" and path in ("prep2", "prep_other") and len(case["ph"]) == len(COLS) and case["ph"] != COLS and ex == [1]
             and o["result"][1] == ("ok", 1) and ref["result"][1] == ("err",) and blames == {"param_path_deviates_from_model"}):
         return "INSERT|prepared_second_execution|cached_plan_ignores_the_column_list"
+    if (kind == "insert" and path == "prep_other" and len(case["ph"]) == len(COLS) and case["ph"] != COLS and blames == {"param_path_deviates_from_model"}):
+        # the re-bound values land in table-column order: seen in the stored row even when both executions report success
+        return "INSERT|prepared_second_execution|cached_plan_ignores_the_column_list"
+    if (kind == "insert" and path == "prep_other" and len(case["ph"]) < len(COLS) and ex == [1] and o["result"][1] == ("err",)
+            and ref["result"][1][0] == "ok" and blames == {"param_path_deviates_from_model"}):
+        return "INSERT|prepared_second_execution|parameter_count_mismatch_when_literals_and_placeholders_are_mixed"
     if (sel and path == "prep_query" and aspects == {"result"} and blames == {"param_path_deviates_from_model"}
             and any(v["n"] == "f_1e22" for v in case["sv"])):
         return "prepared_query|float_parameter_formatted_without_exponent|1e22_becomes_an_integer_literal"
